@@ -60,6 +60,18 @@ def base_programs():
                                 call("USE2", binds={"bams": mro.arrx(ref("AL_A", "bam"), ref("AL_B", "bam")),
                                                     "p": mro.objx(first=ref("AL_A", "idx"), second=ref("AL_B", "idx"))})],
                                {"both": mro.arrx(ref("AL_B", "bam"), ref("AL_A", "bam")), "n": ref("USE2", "n")})], "TOP", {"x": 1}))
+    # an unused call in the top-level pipeline is the only consumer of an output of a child
+    # pipeline that itself calls a pipeline: removing unused calls takes two rounds (the call,
+    # then the output and the call that feeds it)
+    P.append(program("ref_feed", [],
+                     [stage("A", "int x", "int y", {"y": const(51)}), stage("B", "int v", "int w", {"w": const(52)})],
+                     [pipeline("INNER", "int x", "int y", [call("A", binds={"x": self_("x")})], {"y": ref("A", "y")}),
+                      pipeline("MID", "int x", "int y, int z",
+                               [call("INNER", binds={"x": self_("x")}), call("A2", "A", binds={"x": self_("x")})],
+                               {"y": ref("INNER", "y"), "z": ref("A2", "y")}),
+                      pipeline("TOP", "int x", "int r",
+                               [call("MID", binds={"x": self_("x")}), call("B", binds={"v": ref("MID", "z")})],
+                               {"r": ref("MID", "y")})], "TOP", {"x": 1}))
     return P
 
 
